@@ -178,7 +178,7 @@ Proof.
     destruct (quote_rune_head c Hc) as (x & y & Eq & Hx & Hx').
     split; [|split; [|split]].
     + intros f Hf. destruct f; [simpl in Hf; lia|]. rewrite quote_body_step. rewrite (rune_at_ascii c s Hc).
-      change (dropN 1 (c :: s)) with s. rewrite (Hb f ltac:(simpl in Hf; lia)). reflexivity.
+      change (dropN 1 (c :: s)) with s. rewrite (Hb f ltac:(simpl in Hf; lia)), (quote_piece_ascii c s Hc). reflexivity.
     + rewrite app_length, Eq. simpl. lia.
     + intros _. rewrite Eq. exists x, (y ++ b). split; [reflexivity|].
       destruct (N.eq_dec c 34) as [E|E]; [rewrite (Hx' E); discriminate|exact (Hx E)].
@@ -195,7 +195,7 @@ Proof.
     exists (pre ++ b). split; [|split; [|split]].
     + intros f Hf. destruct f; [lia|]. rewrite quote_body_step, R.
       assert (Ed : dropN n s = rst) by (rewrite Es; apply dropN_app_len; exact Ln). rewrite Ed.
-      rewrite (Hb f ltac:(lia)). rewrite (quote_rune_high r Hr128), Enc. reflexivity.
+      rewrite (Hb f ltac:(lia)). rewrite (quote_piece_multi _ r n Hn), (quote_rune_high r Hr128), Enc. reflexivity.
     + rewrite app_length. lia.
     + intros _. exists c, (pre' ++ b). split; [rewrite Epre; reflexivity|lia].
     + intros f rest pos Hf. destruct f; [lia|]. rewrite <- app_assoc.
@@ -223,7 +223,7 @@ Proof.
   assert (NB : starts_with [34; 34] ((b ++ [34]) ++ rest) = false).
   { destruct s as [|c s'].
     - assert (b = []).
-      { pose proof (Hb 1%nat ltac:(simpl; lia)) as X. cbn in X. inversion X. reflexivity. }
+      { pose proof (Hb 1%nat ltac:(simpl; lia)) as X. change (quote_body 1 []) with (@Ok bytes []) in X. inversion X. reflexivity. }
       subst b. cbn [app starts_with].
       destruct rest as [|x r]; [reflexivity|]. destruct (34 =? x) eqn:E; [|rewrite andb_false_r; reflexivity].
       apply N.eqb_eq in E. subst x. destruct Hne as [Hn|Hn]; [contradiction Hn; reflexivity|]. exfalso. apply (Hn r). reflexivity.
